@@ -3,6 +3,21 @@
 TECH = 'explicit TLA+ specification + TLC; '
 
 CHECKS = {
+    'C01': dict(
+        technique=TECH + 'exhaustive small-scope stage machine (MC_Cyclepoints) with indexed conformance of the real compute_cyclepoints/find_extrema, plus TLC trace validation (Trace_Pipeline) of recorded compute_features / Bycycle.fit runs over the option grid',
+        text='Pipeline stage machine in TLA+ (one action per stage); TableWF, alternation and one-row-per-cycle are TLC invariants for every raw signal x filtered-sign pattern up to the bound, and the real code is compared on each of those inputs; every recorded run of the real pipeline on generated signals (10 waveform classes x option grid, both APIs) is judged stage by stage by TLC, including totality under the precondition evaluated on the recorded sign pattern.',
+        design_ref='6/C01',
+        note='neurodsp filter output is an environment input (its arguments are checked); exhaustive only up to 8-9 samples, beyond that sampled traces; TLC and the projection are trusted.'),
+    'C02': dict(
+        technique=TECH + 'exhaustive small-scope model checking with indexed conformance of the real find_extrema (filter stubbed to TLC-chosen sign patterns, zeros materialised both ways), plus trace validation of direct and in-pipeline find_extrema calls',
+        text='Extrema(sig, sign pattern, pad, boundary, first_extrema) is defined declaratively (closed half-waves, first arg-max/min, un-pad, boundary, first-extrema trimming); TLC checks its invariants and compares the real find_extrema on every input up to the bound; recorded calls on generated signals are validated including the arguments bycycle passes to the filter.',
+        design_ref='6/C02',
+        note='"band-passed" = what neurodsp.filter_signal returns for the documented arguments; bounded exhaustiveness (6-9 samples).'),
+    'C03': dict(
+        technique=TECH + 'exhaustive small-scope model checking (MC_Zerox) with indexed conformance of the real find_zerox on every alternating extremum placement over every small integer signal, plus trace validation on generated signals',
+        text='FlankMid/Zerox are transcribed with the four cases (zero segment, inverted flank, floor-median of crossings, no crossing); TLC checks the property-level invariants (inside the flank, sample just before the crossing, median) and that the real find_zerox agrees on all cases of the bound - literally the quantifier of C03 - and on recorded calls.',
+        design_ref='6/C03',
+        note='bounded exhaustiveness (6-7 samples, 3-4 levels); integer-valued signals (dyadic grid) in traces.'),
     'C08': dict(
         technique=TECH + 'exhaustive small-scope model checking with indexed conformance (IX) of the real function, plus TLC trace validation of recorded calls on long arrays',
         text='TLC enumerates every boolean array up to length 11 (thorough 15) x every min_n_cycles, runs a scanning state machine, '
